@@ -3,6 +3,7 @@ package c10
 
 import (
 	"fmt"
+	"github.com/scrapli/scrapligo/logging"
 	"regexp"
 	"strings"
 	"testing"
@@ -205,13 +206,17 @@ func runDlg(w *sched.W, s dlg, hangAt int) (sentAtOpenEnd int) {
 	{
 		cfg := cm.Cfg()
 		cfg.NoPreAlt, cfg.NoIdleAlt = true, s.env == 0
+		bounds := sched.Bounds{Env: s.env}
 		cfg.Horizon = 5 * time.Second
 		rd := cm.Ms
 		if s.maxChunk > 0 {
 			rd = 0
 		}
 		timeout := 40 * cm.Ms
-		w.Explore(cfg, sched.Bounds{Env: s.env}, func(e *sched.Env) {
+		if s.trail {
+			timeout = 2 * time.Second // the slow logger of these scenarios stretches the login
+		}
+		w.Explore(cfg, bounds, func(e *sched.Env) {
 			d := build(s)
 			tr := dev.NewFake(e, d)
 			tr.MaxChunk, tr.Cuts = s.maxChunk, s.env > 0
@@ -232,6 +237,12 @@ func runDlg(w *sched.W, s dlg, hangAt int) (sentAtOpenEnd int) {
 			var t0, t1 time.Duration
 			e.Go("client", func() {
 				opts := append(cm.BaseOpts(impl, rd, timeout, 0), options.WithAuthUsername(cm.User), options.WithAuthPassword(cm.Pass))
+				if s.trail {
+					// a slow user logger (debug level): the login loop falls behind the read loop, so chunks are already
+					// queued behind the one that completes the prompt
+					li, _ := logging.NewInstance(logging.WithLevel("debug"), logging.WithLogger(func(...interface{}) { time.Sleep(cm.Ms / 4) }))
+					opts = append(opts, options.WithLogger(li))
+				}
 				if s.kind == "ssh-nc" {
 					nd, err := netconf.NewDriver("dev", opts...)
 					if err != nil {
@@ -278,7 +289,7 @@ func runDlg(w *sched.W, s dlg, hangAt int) (sentAtOpenEnd int) {
 				case s.rLogin > 1:
 					wantOK, wantErr = false, "auth"
 				}
-				e.Observe("open=%s prompt=%q", cm.ErrClass(openErr), gotPrompt)
+				e.Observe("open=%s prompt=%q rest=%q", cm.ErrClass(openErr), gotPrompt, rest)
 				if hangAt >= 0 {
 					// the stream ended inside the login dialogue
 					if openErr == nil {
